@@ -306,6 +306,34 @@ def enum_edges(body, prog, adt, variants_pred, src_pred=None):
             return False
         return variants_pred(vs)
     out = C.guard_edges(body, prog, pred)
+    if adt in SUCC and adt != "std::ops::ControlFlow":
+        # `x.is_some()` / `x.is_err()` ... are the same test spelled as a call
+        PROBES = {"std::option::Option::<T>::is_some": ("std::option::Option", "Some"),
+                  "std::option::Option::<T>::is_none": ("std::option::Option", "None"),
+                  "std::result::Result::<T, E>::is_ok": ("std::result::Result", "Ok"),
+                  "std::result::Result::<T, E>::is_err": ("std::result::Result", "Err")}
+
+        def probe_pred(c, v, leaf):
+            if c.kind != "bool" or leaf is None or leaf.kind != "call":
+                return False
+            pr = PROBES.get(C.callee_name(leaf.data))
+            if pr is None or not leaf.data["args"]:
+                return False
+            padt, pvar = pr
+            if padt != adt and src_pred is None:
+                return False
+            if src_pred:
+                pl = C.op_place(leaf.data["args"][0])
+                if pl is None:
+                    return False
+                ds = body.defs().get(pl["l"], []) if not pl["p"] else []
+                if len(ds) == 1 and ds[0][0] == "assign" and ds[0][3]["rv"]["k"] == "ref":
+                    pl = ds[0][3]["rv"]["pl"]       # `(&x).is_some()`: the probed place is x
+                if not src_pred(C.Cond("enum", c.bb, adt=padt, src=C.trace(body, leaf.data["args"][0], through_decorators=True), place=pl)):
+                    return False
+            var = pvar if v else (FAIL[padt] if pvar == SUCC[padt] else SUCC[padt])
+            return variants_pred({{SUCC[padt]: SUCC[adt], FAIL[padt]: FAIL[adt]}[var]})
+        out |= C.guard_edges(body, prog, probe_pred)
     names = prog.variant_names(adt)
     if names and adt in prog.adts and src_pred is None:
         allv = set(names.values())
@@ -477,6 +505,68 @@ def has_param(leaves, body, name):
 
 def has_call(leaves, names):
     return any(leaf_is_call(l, names) for l in leaves)
+
+
+ITER_MAPPERS = ("std::iter::Iterator::map", "std::iter::Iterator::flat_map", "std::iter::Iterator::filter_map", "std::iter::Iterator::inspect")
+ITER_JOINERS = ("std::iter::Iterator::chain", "std::iter::Iterator::zip")
+
+
+def piece_atoms(prog, b, op, depth=0):
+    """where the text pieces denoted by `op` (a &str, or an iterator / collection of them) come from, as a set of atoms
+    ('call', fn) | ('param', name) | ('const', literal) | ('field', name) | ('other', what).  Sees through item-preserving iterator
+    plumbing, slice patterns, and lazy adaptors with a closure of this crate (`it.flat_map(|l| [l, sep])`: the closure's result with its
+    item parameter replaced by the pieces of `it` and its captures by what was captured)."""
+    import tables as T
+    out = set()
+    if depth > 6:
+        return {("other", "depth")}
+    tr = lambda tt: C.is_transparent(tt) or T.item_preserving(C.callee_name(tt))
+    for l in C.trace(b, op, through_fields=True, transparent=tr):
+        if l.kind == "field" and b.kind == "Closure" and l.data["l"] == 1 and any(e.get("upvar") for e in l.data["p"]):
+            out.add(("upvar", next(e["i"] for e in l.data["p"] if e.get("upvar"))))
+        elif l.kind == "param" and b.kind == "Closure" and l.data == 1:
+            continue                # the closure environment itself (its captures are reported as upvars)
+        elif l.kind == "field":
+            if all(e["k"] in ("deref", "index", "constindex", "subslice") for e in l.data["p"]):
+                continue            # an element / sub-slice of a collection: the collection itself is traced as well
+            out.add(("field", (C.pl_fields(l.data) or [(None, None, "?")])[-1][2]))
+        elif l.kind == "param":
+            out.add(("param", b.local_name(l.data)))
+        elif l.kind == "const":
+            out.add(("const", C.op_const(l.data)))
+        elif l.kind == "aggregate" and l.data["agg"]["k"] in ("array", "tuple"):
+            for o in l.data["ops"]:
+                out |= piece_atoms(prog, b, o, depth + 1)
+        elif l.kind == "call":
+            nm = C.callee_name(l.data)
+            t = l.data
+            if nm in ITER_JOINERS:
+                out |= piece_atoms(prog, b, t["args"][0], depth + 1) | piece_atoms(prog, b, t["args"][1], depth + 1)
+            elif nm in ITER_MAPPERS and len(t["args"]) == 2 and ((t.get("arg_tys") or [{}, {}])[1].get("closure") in prog.bodies):
+                c = prog.bodies[t["arg_tys"][1]["closure"]]
+                src = None
+                for x in piece_atoms(prog, c, {"l": 0, "p": []}, depth + 1):
+                    if x[0] == "param":
+                        if src is None:
+                            src = piece_atoms(prog, b, t["args"][0], depth + 1)
+                        out |= src
+                    elif x[0] == "upvar":
+                        caps = [st["rv"]["ops"] for bb, si, st in b.stmts() if st["k"] == "assign" and st["rv"]["k"] == "aggregate"
+                                and st["rv"]["agg"]["k"] == "closure" and st["rv"]["agg"].get("def") == c.name]
+                        if len(caps) == 1 and x[1] is not None and x[1] < len(caps[0]):
+                            out |= piece_atoms(prog, b, caps[0][x[1]], depth + 1)
+                        else:
+                            out.add(("other", "capture"))
+                    else:
+                        out.add(x)
+            else:
+                out.add(("call", nm))
+        elif l.kind == "upvar":
+            fi = next((e["i"] for e in l.data["p"] if e["k"] == "field" and e.get("upvar")), None)
+            out.add(("upvar", fi))
+        else:
+            out.add(("other", l.kind))
+    return out
 
 
 # ------------------------------------------------------------------ FS / process site inventory
